@@ -350,6 +350,12 @@ def hull_classes(pts, queries):
 # --------------------------------------------------------------------------------------
 # oracle
 # --------------------------------------------------------------------------------------
+# centroids of triangles are thirds of lattice coordinates: squared distances are then not exact in floating
+# point, and a true tie shows up as a difference of a few ulps.  Distinct squared distances on the lattice (quarter
+# steps, thirds of them for triangle centroids) differ by at least 1/144, so this tolerance cannot merge them.
+TIE_EPS = 1e-9
+
+
 def d2(p, q):
     return sum((a - b) * (a - b) for a, b in zip(p, q))
 
@@ -358,10 +364,13 @@ def nearest_set(cs, sidx, q):
     best, arg = None, []
     for idx in sidx:
         dist = d2(cs[idx], q)
-        if best is None or dist < best:
-            best, arg = dist, [idx]
-        elif dist == best:
+        if best is None or dist < best - TIE_EPS * max(1.0, best):
+            # everything collected so far that is farther than the new minimum (beyond the tie tolerance) goes
+            arg = [j for j in arg if d2(cs[j], q) <= dist + TIE_EPS * max(1.0, dist)] + [idx]
+            best = dist
+        elif dist <= best + TIE_EPS * max(1.0, best):
             arg.append(idx)
+            best = min(best, dist)
     return arg
 
 
@@ -534,7 +543,7 @@ def compare(case, gs, gd, vals, impl, model, inside=None, skip=()):
         # a tie: any source at the minimal distance is acceptable
         dmin = model["dmin"][k]
         dmin = dmin[0] / dmin[1]
-        ok = any((not sm[j]) and float(((sp[j] - tp[k]) ** 2).sum()) == dmin and sv[j] == gv[k] for j in range(len(sv)))
+        ok = any((not sm[j]) and abs(float(((sp[j] - tp[k]) ** 2).sum()) - dmin) <= TIE_EPS * max(1.0, dmin) and sv[j] == gv[k] for j in range(len(sv)))
         if not ok:
             return {"what": "nearest value", "flat_index": k, "impl": float(gv[k]), "model": mv}
     return None
